@@ -420,3 +420,64 @@ CODECS = {
     'height_pressure': (enc_height_pressure, dec_height_pressure),
     'wind': (enc_wind, dec_wind),
 }
+
+
+# --------------------------------------------------------------------------
+# GEOS-Chem binary punch (bpch)
+
+def enc_bpch(r):
+    """r: ftype, toptitle, modelname, modelres (2 floats), halfpolar, center180,
+    blocks [[dict(category, tracer, unit, tau0, tau1, reserved, start (i0,j0,l0), data (nl,nj,ni))]]"""
+    out = rec(r.get('ftype', 'CTM bin 02').ljust(40).encode('ascii')[:40])
+    out += rec(r.get('toptitle', 'reference encoded').ljust(80).encode('ascii')[:80])
+    for blocks in r['blocks']:
+        for b in blocks:
+            nl, nj, ni = b['data'].shape
+            out += rec(r['modelname'].ljust(20).encode('ascii')[:20] + _S.pack('>ffii', r['modelres'][0],
+                                                                               r['modelres'][1], r['halfpolar'],
+                                                                               r['center180']))
+            out += rec(b['category'].ljust(40).encode('ascii')[:40] + _S.pack('>i', b['tracer']) +
+                       b['unit'].ljust(40).encode('ascii')[:40] + _S.pack('>dd', b['tau0'], b['tau1']) +
+                       b.get('reserved', '').ljust(40).encode('ascii')[:40] +
+                       _S.pack('>6i', ni, nj, nl, b['start'][0], b['start'][1], b['start'][2]) +
+                       _S.pack('>i', 4 * ni * nj * nl + 8))
+            out += rec(f4(b['data']))
+    return out
+
+
+def dec_bpch(raw):
+    recs = records(raw)
+    if len(recs[0]) != 40 or len(recs[1]) != 80:
+        raise LayoutError('bpch header records of %d and %d bytes' % (len(recs[0]), len(recs[1])))
+    r = {'ftype': recs[0].decode('ascii').rstrip(), 'toptitle': recs[1].decode('ascii').rstrip(), 'flat': []}
+    body = recs[2:]
+    if len(body) % 3:
+        raise LayoutError('%d records after the header is not a multiple of 3' % len(body))
+    for k in range(0, len(body), 3):
+        a, b, c = body[k:k + 3]
+        if len(a) != 36 or len(b) != 168:
+            raise LayoutError('data block header records of %d and %d bytes' % (len(a), len(b)))
+        blk = {'modelname': a[:20].decode('ascii').rstrip()}
+        blk['modelres'] = struct.unpack('>ff', a[20:28])
+        blk['halfpolar'], blk['center180'] = struct.unpack('>ii', a[28:36])
+        blk['category'] = b[:40].decode('ascii').rstrip()
+        blk['tracer'] = struct.unpack('>i', b[40:44])[0]
+        blk['unit'] = b[44:84].decode('ascii').rstrip()
+        blk['tau0'], blk['tau1'] = struct.unpack('>dd', b[84:100])
+        blk['reserved'] = b[100:140].decode('ascii').rstrip()
+        ni, nj, nl, i0, j0, l0 = struct.unpack('>6i', b[140:164])
+        blk['start'] = (i0, j0, l0)
+        skip = struct.unpack('>i', b[164:168])[0]
+        if len(c) != 4 * ni * nj * nl or skip != len(c) + 8:
+            raise LayoutError('data record of %d bytes for dims %r, skip %d' % (len(c), (ni, nj, nl), skip))
+        blk['data'] = np.frombuffer(c, dtype='>f4').reshape(nl, nj, ni).astype('f4')
+        r['flat'].append(blk)
+    return r
+
+
+def tracerinfo_line(name, fullname, molwt, carbon, tracer, scale, unit):
+    return '%-8s %-30s%10.3E%3d%9d%10.3E %s' % (name, fullname, molwt, carbon, tracer, scale, unit)
+
+
+def diaginfo_line(offset, category, comment=''):
+    return '%8d %-40s %s' % (offset, category, comment)
